@@ -334,6 +334,43 @@ example : (match typeFor table (b "leaf") with
       | none => false
     | none => false) = true := by decide +kernel
 
+-- `build_rejects_unknown`: `foo` is neither prefixed nor known under `module`
+example : (match typeFor table (b "module") with
+    | some t =>
+      match table.types[t]? with
+      | some T => knownIn table T (b "foo") || knownIn table T (b "Parent") || knownIn table T (b "Name") ||
+          knownIn table T (b "Statement") || knownIn table T (b "Ext")
+      | none => true
+    | none => true) = false := by decide +kernel
+
+-- `build_rejects_duplicate_single`: `namespace` twice under `module` is two entries of one pointer field
+example : (match typeFor table (b "module") with
+    | some t =>
+      match table.types[t]? with
+      | some T => T.fields.any (fun f => f.kind == .ptr &&
+          decide (2 ≤ (subsOf table f [st "namespace" "n", st "prefix" "p", st "namespace" "q"]).length))
+      | none => false
+    | none => false) = true := by decide +kernel
+
+-- `build_rejects_foreign_required`: `belongs-to` is mandatory for `submodule`, hence forbidden in `module`
+example : (match typeFor table (b "module") with
+    | some t =>
+      match table.types[t]? with
+      | some T => T.fields.any (fun f => f.kind.isSub && table.kwName f.tag == some (b "belongs-to") &&
+          f.reqKinds.any (fun k => table.kwName k != some (b "module")))
+      | none => false
+    | none => false) = true := by decide +kernel
+
+-- `build_rejects_toplevel_non_module`, `build_total`: their hypotheses on concrete data
+example : b "container" ≠ kwModule ∧ b "container" ≠ kwSubmodule := by decide +kernel
+example : ParentOk table none := Goyang.Lemmas.Ast.parentOk_none table
+example : ParentOk table (some table.moduleTy) := by
+  intro pt hpt
+  cases hpt
+  have hlt : table.moduleTy < table.types.length := by decide +kernel
+  exact ⟨table.types[table.moduleTy], List.getElem?_eq_getElem hlt,
+    ((WF.toP gen_table_wf).types _ (List.getElem_mem hlt)).isNode⟩
+
 end Examples
 
 end Goyang.Props.C03
